@@ -48,6 +48,8 @@ mod share;
 // ------------------------------------------------------------ tracked token
 
 static LIVE: AtomicI64 = AtomicI64::new(0);
+/// the last cumulative report of a stress worker, as JSON text (for the panic hook)
+static LAST_REPORT: Mutex<String> = Mutex::new(String::new());
 static CREATED: AtomicU64 = AtomicU64::new(0);
 
 #[derive(Debug, PartialEq)]
@@ -1001,6 +1003,19 @@ fn probes(repo: &Path, fn_bounds: Option<&str>, rep: &mut Report) {
 
 // ------------------------------------------------------------ entry points
 
+fn report_json(rep: &Report) -> Value {
+    json!({
+        "evaluations": rep.evaluations,
+        "distinct_nontrivial": rep.classes.len(),
+        "classes": rep.classes,
+        "impl_violations": rep.impl_violations,
+        "model_mismatches": rep.model_mismatches,
+        "samples": rep.samples,
+        "histograms": rep.histograms,
+        "notes": rep.notes,
+    })
+}
+
 fn arg_after<'a>(a: &'a [String], key: &str) -> Option<&'a str> {
     a.iter().position(|x| x == key).and_then(|i| a.get(i + 1)).map(|s| s.as_str())
 }
@@ -1021,10 +1036,11 @@ fn on_crash(rep: &mut Report, seed: u64, tiername: &str, index: u64, ended: &End
         );
         return;
     }
+    let panic_note: Vec<&String> = rep.notes.iter().filter(|n| n.starts_with("worker panicked")).collect();
     rep.violation(
         "a process running concurrent calls / compilations / drops died or hung",
         "crash-or-hang-under-concurrency",
-        json!({"kind": "stress", "seed": seed, "index": index, "tier": tiername, "ended": how}),
+        json!({"kind": "stress", "seed": seed, "index": index, "tier": tiername, "ended": how, "panic": panic_note}),
     );
 }
 
@@ -1060,6 +1076,29 @@ fn main() {
             let from: u64 = a[5].parse().unwrap();
             let n: u64 = a[6].parse().unwrap();
             let mut rep = Report::default();
+            // a panic in any thread (harness or roto) is reported with its message and place:
+            // the hook re-emits the last cumulative report with a note (stderr of workers is not kept)
+            std::panic::set_hook(Box::new(|info| {
+                let mut v: Value = LAST_REPORT
+                    .lock()
+                    .ok()
+                    .and_then(|s| serde_json::from_str(&s).ok())
+                    .unwrap_or_else(|| json!({}));
+                let note = format!(
+                    "worker panicked in thread {:?}: {}",
+                    std::thread::current().name().unwrap_or("?"),
+                    info.to_string().replace('\n', " ")
+                );
+                match v.get_mut("notes").and_then(|n| n.as_array_mut()) {
+                    Some(a) => a.push(json!(note)),
+                    None => v["notes"] = json!([note]),
+                }
+                println!("HARNESS-REPORT {v}");
+                let _ = std::io::stdout().flush();
+                if let Ok(mut s) = LAST_REPORT.lock() {
+                    *s = v.to_string();
+                }
+            }));
             let mut drv = Driver::spawn().expect("lean driver");
             for index in from..from + n {
                 println!("START {index}");
@@ -1068,6 +1107,9 @@ fn main() {
                 // cumulative report after every case: a crash in a later
                 // case must not lose what was found before it
                 rep.emit();
+                if let Ok(mut s) = LAST_REPORT.lock() {
+                    *s = report_json(&rep).to_string();
+                }
                 let _ = std::io::stdout().flush();
             }
             rep.emit();
